@@ -192,34 +192,65 @@ def run(chk):
         chk.ok("C19.size", enc[0], "write(): the re-encoding writer is used exactly when `encoding or te_encoding` (the cases size reports None)")
     else:
         chk.violation("C19.size", write, "if encoding or te_encoding: w = MultipartPayloadWriter(writer)", "", "parts are re-encoded under a different condition than the one size uses")
-    # one decision per part: the encodings recorded when the part was appended - the moment its Content-Length header was stamped or withheld -
-    # are the ones size and write() act on; re-deriving them later (from headers the caller can still change) lets the two disagree
-    ap = w.methods["append_payload"]
-    apps_ = [c for c, _b in K.exprs(ap, "self._parts.append($T)")]
-    stamp = [s_ for s_, _b in K.stmts(ap, "$P.headers[CONTENT_LENGTH] = $V")]
-    rec = apps_[0].args[0] if apps_ and isinstance(apps_[0].args[0], ast.Tuple) and len(apps_[0].args[0].elts) == 3 else None
-    if rec is None or not stamp:
-        chk.violation("C19.size", ap, "self._parts.append((payload, encoding, te_encoding))", "", "append_payload() no longer records the part's encodings next to the part / no longer stamps Content-Length")
+    # one decision per part and per use: the function that derives (encoding, te_encoding) from the part's headers is also the one that stamps or
+    # withdraws the part's Content-Length, and size, write() and as_bytes() all act on its result - either the values append_payload() recorded
+    # in _parts (snapshot design) or a fresh call of the same deriving helper for the part at hand (live design: the headers of a part may be
+    # set after append()).  Mixing the two lets a part be written re-encoded under a Content-Length that describes the raw bytes.
+    deriver = next((m for m in w.methods.values() if K.stmts(m, "$P.headers[CONTENT_LENGTH] = $V")), None)
+    if deriver is None:
+        chk.violation("C19.size", w.methods["append_payload"], "payload.headers[CONTENT_LENGTH] = str(size)", "", "no method of MultipartWriter stamps the part's Content-Length any more")
     else:
-        en, te = (norm.raw(e) for e in rec.elts[1:])
-        lits = {l.text for c in PC.pc(stamp[0], raw=True) for l in c}
-        if {en, te} <= lits:
-            chk.ok("C19.size", stamp[0], f"append_payload(): the part's Content-Length is stamped under not({en} or {te}), the very values stored in _parts")
+        dname = deriver.qualname.split(".")[-1]
+        stamp = [s_ for s_, _b in K.stmts(deriver, "$P.headers[CONTENT_LENGTH] = $V")]
+        if dname == "append_payload":
+            chk.violation("C19.size", deriver, "encodings derived once, in append_payload()", "a helper called by append_payload(), size, write() and as_bytes()",
+                          "append() returns the Payload so that its headers can be set (docs/multipart.rst: `part.headers[CONTENT_ENCODING] = 'gzip'`), but the encodings and the Content-Length are decided inside append_payload(): the header block announces gzip / base64 and the part is written raw")
         else:
-            chk.violation("C19.size", stamp[0], K.short(stamp[0]), f"guarded by the recorded `{en}` / `{te}`", "the part Content-Length is stamped under another encoding decision than the one recorded for writing")
-        for fn_, what in ((size, "size"), (write, "write()")):
-            loops = [l for l in ast.walk(fn_.node) if isinstance(l, (ast.For, ast.AsyncFor)) and norm.raw(l.iter) == "self._parts"]
-            tgt = loops[0].target if loops else None
-            names = [e.id for e in tgt.elts if isinstance(e, ast.Name)] if isinstance(tgt, ast.Tuple) else []
-            rebound = [st for l in loops for st in ast.walk(l) if isinstance(st, (ast.Assign, ast.AnnAssign, ast.AugAssign)) for t_ in ast.walk(st) if isinstance(t_, ast.Name) and isinstance(t_.ctx, ast.Store) and t_.id in names[1:]]
-            dec = [i for l in loops for i in ast.walk(l) if isinstance(i, ast.If)]
-            uses = {n_.id for i in dec for n_ in ast.walk(i.test) if isinstance(n_, ast.Name)}
-            if len(names) == 3 and not rebound and set(names[1:]) <= uses:
-                chk.ok("C19.size", loops[0], f"{what}: the per-part encodings are the ones recorded by append_payload() (loop target over self._parts, never re-bound)")
+            chk.ok("C19.size", deriver, f"the part encodings are derived by {dname}() whenever the part is used (headers set after append() count)")
+        if dname == "append_payload":
+            apps_ = [c for c, _b in K.exprs(deriver, "self._parts.append($T)")]
+            rec = apps_[0].args[0] if apps_ and isinstance(apps_[0].args[0], ast.Tuple) and len(apps_[0].args[0].elts) == 3 else None
+            names_d = [norm.raw(e) for e in rec.elts[1:]] if rec is not None else []
+        else:
+            rets = [r for r in ast.walk(deriver.node) if isinstance(r, ast.Return) and isinstance(r.value, ast.Tuple) and len(r.value.elts) == 2]
+            names_d = [norm.raw(e) for e in rets[0].value.elts] if rets else []
+        lits = {(l.text, l.pos) for c in PC.pc(stamp[0], raw=True) for l in c}
+        if len(names_d) == 2 and all((n_, False) in lits for n_ in names_d):
+            chk.ok("C19.size", stamp[0], f"{dname}(): the part's Content-Length is stamped under not({names_d[0]} or {names_d[1]}), the very values it hands on")
+        else:
+            chk.violation("C19.size", stamp[0], K.short(stamp[0]), "guarded by the derived encodings", f"{dname}() stamps the part Content-Length under another encoding decision than the one it hands on for writing")
+        if dname != "append_payload":
+            pops = [c for c in prog.calls_in(deriver.node) if isinstance(c.func, ast.Attribute) and c.func.attr in ("pop", "popall", "popone") and "CONTENT_LENGTH" in norm.raw(c)]
+            if pops:
+                chk.ok("C19.size", pops[0], f"{dname}() withdraws a Content-Length stamped earlier when the part has become encoded since")
             else:
-                at = rebound[0] if rebound else (loops[0] if loops else fn_)
-                chk.violation("C19.size", at, K.short(at), "for part, encoding, te_encoding in self._parts",
-                              f"{what} does not act on the encodings recorded when the part was appended: append_payload() stamped the part's Content-Length for the un-encoded bytes (or withheld it) under the recorded decision, so a part that gets a Content-Encoding / Content-Transfer-Encoding header after append() is written re-encoded under a Content-Length that describes the raw bytes")
+                chk.violation("C19.size", deriver, f"{dname}", "payload.headers.pop(CONTENT_LENGTH, None) when an encoding is active",
+                              "the encodings are derived again at every use but a Content-Length stamped at append() stays: a part that was given Content-Encoding after append() is written compressed under the length of the raw bytes")
+        for fn_, what in ((size, "size"), (write, "write()"), (w.methods.get("as_bytes"), "as_bytes()")):
+            if fn_ is None:
+                continue
+            loops = [l for l in ast.walk(fn_.node) if isinstance(l, (ast.For, ast.AsyncFor)) and norm.raw(l.iter) == "self._parts"]
+            if not loops:
+                chk.violation("C19.size", fn_, what, "for part, ... in self._parts", f"{what} does not walk the recorded parts")
+                continue
+            tgt = loops[0].target
+            names = [e.id for e in tgt.elts if isinstance(e, ast.Name)] if isinstance(tgt, ast.Tuple) else []
+            live = [a for a in ast.walk(loops[0]) if isinstance(a, ast.Assign) and isinstance(a.value, ast.Call) and norm.raw(a.value.func) == f"self.{dname}" and isinstance(a.targets[0], ast.Tuple)]
+            dec = [i for i in ast.walk(loops[0]) if isinstance(i, ast.If)]
+            uses = {n_.id for i in dec for n_ in ast.walk(i.test) if isinstance(n_, ast.Name)}
+            if dname == "append_payload":
+                rebound = [st for st in ast.walk(loops[0]) if isinstance(st, (ast.Assign, ast.AnnAssign, ast.AugAssign)) for t_ in ast.walk(st) if isinstance(t_, ast.Name) and isinstance(t_.ctx, ast.Store) and t_.id in names[1:]]
+                good = len(names) == 3 and not rebound and set(names[1:]) <= uses
+                how = "the per-part encodings are the ones recorded by append_payload() (loop target over self._parts, never re-bound)"
+            else:
+                got = [e.id for e in live[0].targets[0].elts if isinstance(e, ast.Name)] if live else []
+                good = bool(live) and len(got) == 2 and set(got) <= uses and not (set(names[1:]) & uses - set(got))
+                how = f"the per-part encodings come from self.{dname}(part), the function that also keeps the part's Content-Length in step"
+            if good:
+                chk.ok("C19.size", loops[0], f"{what}: {how}")
+            else:
+                chk.violation("C19.size", loops[0], K.short(loops[0]), f"encodings from {'the recorded tuple' if dname == 'append_payload' else 'self.' + dname + '(part)'}",
+                              f"{what} does not act on the encodings that {dname}() derived when it stamped (or withheld) the part's Content-Length: a part that gets a Content-Encoding / Content-Transfer-Encoding header after append() is written re-encoded under a Content-Length that describes the raw bytes, or announced encoded and written raw")
     # ---- eof (T16) -----------------------------------------------------------------------------------------------
     n_loops = 0
     for rel, cname in ((MP, "BodyPartReader"), (MP, "MultipartReader")):
@@ -459,6 +490,7 @@ def hunt_rules(chk, repo):
             chk.ok("C19.shortread", cl_.node, f"{cl_.name}: no fixed multi-byte token is matched against read(n)/readany() (line and delimiter reads use readline/readuntil/readexactly)")
     hunt2_rules(chk, repo)
     hunt3_rules(chk, repo)
+    hunt4_rules(chk, repo)
     # ---- C19.textsize: a text-mode file's byte size is its payload size only under the same codec (shared with C04) --------------------------
     textsize(chk, repo, "C19.size")
 
@@ -482,6 +514,105 @@ def textsize(chk, repo, rule):
             else:
                 chk.violation(rule + ".newline", r, "return super().size", "None (a text-mode stream cannot promise its encoded length)",
                               "TextIOPayload.size is the on-disk size whenever the codecs agree, but text mode also translates newlines and applies an error handler: a 10-byte CRLF file opened with open(p) writes 8 bytes under `Content-Length: 10` (the peer stalls), with errors='replace' 5 bytes go out under a size of 3; multipart part lengths are wrong the same way")
+
+
+def hunt4_rules(chk, repo):
+    """Rules written after the fourth defect hunt (F226-F234)."""
+    import re as _re
+    bp = repo.cls(MP, "BodyPartReader")
+    # ---- C19.cd.quoted (escapes): the end of a quoted value is judged with quoted-pairs in mind ------------------------------------------------
+    pcd = repo.func(MP, "parse_content_disposition")
+    preds = {}
+    for f in [x for x in ast.walk(pcd.node) if isinstance(x, ast.FunctionDef)]:
+        for c in ast.walk(f):
+            if isinstance(c, ast.Call) and norm.raw(c.func) in ("re.fullmatch", "re.match") and c.args and isinstance(c.args[0], ast.Constant) and isinstance(c.args[0].value, str) and "\\\\" in repr(c.args[0].value):
+                preds[f.name] = (c.args[0].value, norm.raw(c.func))
+    ok_pred = None
+    for name, (pat, how) in preds.items():
+        try:
+            cre = _re.compile(pat, _re.S)
+            m = cre.fullmatch if how.endswith("fullmatch") else cre.match
+            open_w = ['"say\\ \\"hi\\"', '"a', '"a\\"']      # the quote at the end is escaped / missing: the value goes on
+            closed_w = ['"abc"', '"a\\\\"', '""']                # closed (an escaped backslash in front of the closing quote)
+            if all(m(x) for x in open_w) and not any(m(x) for x in closed_w):
+                ok_pred = name
+        except _re.error:
+            pass
+    joins = [l for l in ast.walk(pcd.node) if isinstance(l, ast.While) and "is_quoted" in norm.raw(l.test) and norm.raw(l.test) != "parts"]
+    if ok_pred and joins and all(any(isinstance(c, ast.Call) and norm.raw(c.func) == ok_pred for c in ast.walk(l.test)) for l in joins):
+        chk.ok("C19.cd.quoted", joins[0], f"the joining loop goes on while `{ok_pred}()` says the quoted-string is still open (a `\\\"` at the end of a piece is not its closing quote)")
+    else:
+        chk.violation("C19.cd.quoted", joins[0] if joins else pcd, K.short(joins[0], 70) if joins else "parse_content_disposition", "while parts and (not is_quoted(v) or is_unclosed(v)): join the next piece",
+                      "a piece that ends in an escaped quote is taken for a complete quoted value: `name=\"say \\\"hi\\\"; then leave\"` (what FormData writes for the field name `say \"hi\"; then leave`) fails to parse, the part loses its name and request.post() raises `Multipart field missing name`")
+    # ---- C19.lookahead.cancel (tail): the end-of-part step of read_chunk() is undone when its wait is interrupted ---------------------------------
+    rc = bp.methods["read_chunk"]
+    marks = [a for a in ast.walk(rc.node) if isinstance(a, ast.Assign) and norm.raw(a) == "self._at_eof = True"]
+    tails = [a for a in prog.awaits_in(rc.node) if isinstance(a.value, ast.Call) and norm.raw(a.value.func).startswith("self._content.read") and marks and a.lineno > marks[0].lineno]
+    for a in tails:
+        hs = [h for _t, h in K.enclosing_try_handlers(a) if h.type is None or {"BaseException", "asyncio.CancelledError"} & set(PC.handler_types(h))]
+        undo = [h for h in hs if isinstance(h.body[-1], ast.Raise) and any(isinstance(x, ast.Assign) and norm.raw(x) == "self._at_eof = False" for x in ast.walk(h))
+                and any(isinstance(x, ast.Assign) and norm.raw(x.targets[0]) == "self._b64_carry" for x in ast.walk(h))]
+        if undo:
+            chk.ok("C19.lookahead.cancel", a, "read_chunk(): interrupted while waiting for the CRLF after the last byte, the step is undone (bytes unread, _at_eof and the carry restored)")
+        else:
+            chk.violation("C19.lookahead.cancel", a, K.short(a, 60), "except BaseException: unread `fresh`, self._at_eof = False, self._b64_carry = carry; raise",
+                          "read_chunk() has taken the last bytes of a Content-Length part and set _at_eof before it waits for the trailing CRLF; when that wait is interrupted the chunk is gone and the part is stuck at EOF: the retry returns b'' and next() raises `Invalid boundary`")
+    if marks and not tails:
+        chk.analysis_error("C19.lookahead.cancel: the wait for the trailing CRLF in BodyPartReader.read_chunk was not found")
+    # ---- C19.window (carry): the bytes read_chunk() carries over are part of what it holds back ---------------------------------------------------------
+    rl = bp.methods["readline"]
+    if "self._b64_carry" in norm.raw(rl.node) and any(isinstance(c, ast.Call) and norm.raw(c.func).endswith("unread_data") and "_b64_carry" in norm.raw(c) for c in ast.walk(rl.node)):
+        chk.ok("C19.window", rl, "readline() also gives the tail read_chunk() carries to its next chunk (base64 / quoted-printable alignment) back to the stream")
+    else:
+        chk.violation("C19.window", rl, "BodyPartReader.readline", "if self._b64_carry: self._content.unread_data(self._b64_carry); self._b64_carry = b''",
+                      "readline() after read_chunk() on a base64 / quoted-printable part ignores the bytes read_chunk() carried over for alignment: they are dropped from the line stream")
+    # ---- C19.charset.first: the `_charset_` convention applies to the first part only (RFC 7578 4.6) -----------------------------------------------------
+    nx = repo.func(MP, "MultipartReader.next")
+    cs = [i for i in ast.walk(nx.node) if isinstance(i, ast.If) and any(isinstance(c, ast.Constant) and c.value == "_charset_" for c in ast.walk(i.test))]
+    if not cs:
+        chk.analysis_error("C19.charset.first: the `_charset_` test of MultipartReader.next was not found")
+    else:
+        lits = [l for c_ in PC.pc(cs[0]) for l in c_ if len(c_) == 1]
+        first = [l for l in lits if l.pos and l.text == "self._at_bof"]
+        if first and not any(l.pos and l.text == "self._last_part is None" for l in lits):
+            chk.ok("C19.charset.first", cs[0], "a field named `_charset_` sets the default charset only when it is the first part (the position is taken from _at_bof before the delimiter is read)")
+        else:
+            chk.violation("C19.charset.first", cs[0], K.short(cs[0], 60), "first_part = self._at_bof  (taken before the first delimiter is read)",
+                          "the position test is `self._last_part is None`, which _maybe_release_last_part() has made true for every part: a form field named `_charset_` at any position is swallowed and changes the charset of the fields after it")
+    # ---- C19.limits.negative: a length-framed part never asks the stream for a negative number of bytes --------------------------------------------------
+    rfl = bp.methods["_read_chunk_from_length"]
+    rds = [a for a in prog.awaits_in(rfl.node) if isinstance(a.value, ast.Call) and norm.raw(a.value.func) == "self._content.read"]
+    for a in rds:
+        st = K.stmt_of(a)
+        if PC.has_lit(PC.pc(st), [("self._read_bytes > self._length", False), ("self._length < self._read_bytes", False), ("self._read_bytes <= self._length", True), ("self._length >= self._read_bytes", True)], True) is not None:
+            chk.ok("C19.limits.negative", a, "_read_chunk_from_length(): read(n) is reached only with _read_bytes <= _length (readline() may have gone past a too small Content-Length)")
+        else:
+            chk.violation("C19.limits.negative", a, K.short(a, 60), "if self._read_bytes > self._length: raise ValueError(...)",
+                          "after readline() has read past a Content-Length smaller than the part, read_chunk() computes a negative remainder and StreamReader.read(-n) means `read to EOF`: the rest of the request body is buffered and returned as content of this part")
+    # ---- C19.append.charset: text appended with a charset in its Content-Type is encoded in that charset ---------------------------------------------------
+    apd = repo.func(MP, "MultipartWriter.append")
+    gp = [c for c in prog.calls_in(apd.node) if norm.raw(c.func) == "get_payload"]
+    if gp and any(any(k.arg == "content_type" for k in c.keywords) or any(k.arg is None for k in c.keywords) for c in gp):
+        chk.ok("C19.append.charset", gp[0], "append(): the Content-Type given in the headers reaches get_payload(), which encodes text with its charset")
+    else:
+        chk.violation("C19.append.charset", apd, "get_payload(obj, headers=headers)", "content_type=<Content-Type of the headers>",
+                      "append('text', {'Content-Type': 'text/plain; charset=cp1251'}) writes UTF-8 bytes under a header that says cp1251: part.text() on the other side returns mojibake")
+    # ---- C19.boundary.quoted: parameters of a media type are split with quoted-strings in mind -----------------------------------------------------------------
+    pm = repo.func("aiohttp/helpers.py", "parse_mimetype")
+    naive = [c for c in prog.calls_in(pm.node) if isinstance(c.func, ast.Attribute) and c.func.attr == "split" and c.args and isinstance(c.args[0], ast.Constant) and c.args[0].value == ";"]
+    fa = [c for c in prog.calls_in(pm.node) if norm.raw(c.func) in ("re.findall", "re.split", "re.finditer") and c.args and isinstance(c.args[0], ast.Constant)]
+    good = False
+    if fa and not naive:
+        try:
+            pieces = [x if isinstance(x, str) else x[0] for x in _re.findall(fa[0].args[0].value, 'multipart/form-data; boundary="a;b\\"c"; x=1')]
+            good = any(p_.strip() == 'boundary="a;b\\"c"' for p_ in pieces)
+        except _re.error:
+            good = False
+    if good:
+        chk.ok("C19.boundary.quoted", fa[0], "parse_mimetype(): a `;` or an escaped quote inside a quoted parameter value does not end the parameter")
+    else:
+        chk.violation("C19.boundary.quoted", naive[0] if naive else pm, K.short(naive[0]) if naive else "parse_mimetype", "split that respects quoted-strings; unescape quoted-pairs",
+                      "parse_mimetype() splits the header at every `;`: a boundary that MultipartWriter had to quote (`boundary=\"a;b\"`) is cut short and the body it delimits cannot be read back")
 
 
 def hunt3_rules(chk, repo):
@@ -524,9 +655,15 @@ def hunt3_rules(chk, repo):
                     continue
                 if g.find_path([tn], lambda x: x is w, lambda x: False, EXPLICIT) is None:
                     continue
-                # still needed afterwards?
-                later = [x for x in ast.walk(m.node) if isinstance(x, ast.Name) and x.id == loc and isinstance(x.ctx, ast.Load) and x.lineno > w.ast.lineno]
-                if not later:
+                # still needed afterwards?  (a use reached from the wait without a new definition of the local in between)
+                def _defines(n_, loc=loc):
+                    return n_.ast is not None and n_.kind == "stmt" and isinstance(n_.ast, (ast.Assign, ast.AugAssign, ast.AnnAssign)) and any(
+                        isinstance(t_, ast.Name) and t_.id == loc for t0 in (n_.ast.targets if isinstance(n_.ast, ast.Assign) else [n_.ast.target]) for t_ in ast.walk(t0))
+
+                def _uses(n_, loc=loc):
+                    return n_.ast is not None and any(isinstance(x, ast.Name) and x.id == loc and isinstance(x.ctx, ast.Load) for x in ast.walk(n_.ast if n_.kind != "handler" else ast.Pass()))
+
+                if _defines(w) or g.find_path([w], _uses, lambda n_: _defines(n_) and not _uses(n_), EXPLICIT) is None:
                     continue
                 nla += 1
                 hs = [h for _t, h in K.enclosing_try_handlers(w.ast) if h.type is None or {"BaseException", "asyncio.CancelledError"} & set(PC.handler_types(h))]
@@ -573,7 +710,7 @@ def hunt2_rules(chk, repo):
         else:
             chk.violation("C19.lookahead", rc, "read_chunk()", "drain self._unread (push the peeked line back) before reading from self._content",
                           "readline() keeps the next line in self._unread, and no other read path looks there: readline() followed by read() silently drops a line of the part, reading only the first line of each part and calling next() raises `Invalid boundary`, release() swallows the following part")
-        cnt = [a for a in ast.walk(rl.node) if isinstance(a, ast.AugAssign) and norm.raw(a.target) == "self._read_bytes"]
+        cnt = [a for a in ast.walk(rl.node) if isinstance(a, ast.AugAssign) and norm.raw(a.target) == "self._read_bytes" and isinstance(a.op, ast.Add)]  # (the give-back of carried bytes subtracts)
         # ... and counts what it hands out: the line is not changed any more between the count and the return (the CRLF that belongs to the
         # next delimiter is stripped first)
         grl = cfg_of(rl.node)
